@@ -450,6 +450,7 @@ func (ft *funcTrans) instr(in ssa.Instruction) {
 		ft.call(x, x)
 	case *ssa.Go:
 		ft.notes = append(ft.notes, "go statement at "+posStr(ft.p.SSA.Fset, x.Pos())+": spawned goroutine is not modelled (sequential reasoning only)")
+		ft.goRequires(x)
 	case *ssa.Defer:
 		ft.defers = append(ft.defers, x)
 	case *ssa.RunDefers:
@@ -637,6 +638,28 @@ func (ft *funcTrans) unop(x *ssa.UnOp) {
 	case token.ARROW:
 		ft.asyncPoint()
 		ft.havocValue(x, "")
+		if ft.c != nil && len(ft.c.RecvAssumes) > 0 {
+			v := ft.vals[x]
+			var rt Term
+			if v.Tup != nil {
+				rt = v.Tup[0].T
+			} else {
+				rt = v.T
+			}
+			ec := ft.localCtx(ft.curSt)
+			ec.env["recv"] = rt
+			ec.env["recvFrom"] = ft.termOf(x.X)
+			for _, ra := range ft.c.RecvAssumes {
+				t := ec.evalBool(ra.E)
+				if v.Tup != nil && len(v.Tup) > 1 {
+					// a closed channel yields the zero value: the assumption is about delivered values
+					ft.assume(fmt.Sprintf("(=> %s %s)", v.Tup[1].T.S, t.S))
+				} else {
+					ft.assume(t.S)
+				}
+			}
+			w.assumptions["received values assumed to satisfy the recvassume clauses of "+ft.fn.String()+" (justified by the sender's sendreq)"] = true
+		}
 	default:
 		panic(unsupportedErr("unary op " + x.Op.String()))
 	}
@@ -963,4 +986,100 @@ func freeVarReadOnly(fn *ssa.Function, fv *ssa.FreeVar, depth int) bool {
 		}
 	}
 	return true
+}
+
+// goRequires: `go func(){...}()` of a closure under contract: the closure's preconditions are
+// obligations of the spawning function, evaluated over the variables the closure captures (which
+// have the same names here; name0, the value when the closure starts, is the current value).
+func (ft *funcTrans) goRequires(x *ssa.Go) {
+	mc, ok := x.Call.Value.(*ssa.MakeClosure)
+	if !ok || ft.c == nil {
+		return
+	}
+	fn, ok := mc.Fn.(*ssa.Function)
+	if !ok {
+		return
+	}
+	c := ft.p.Contracts[fn.String()]
+	if c == nil || len(c.Requires) == 0 {
+		return
+	}
+	ec := ft.localCtx(ft.curSt)
+	// captured variables by their own names (cells of this function or plain values)
+	for i, fv := range fn.FreeVars {
+		b := mc.Bindings[i]
+		v := ft.valOf(b)
+		if v.L != nil {
+			ec.cells[fv.Name()] = v.L
+			delete(ec.env, fv.Name())
+			continue
+		}
+		if v.Tup != nil || v.Bad != "" {
+			continue
+		}
+		if pt, isPtr := fv.Type().Underlying().(*types.Pointer); isPtr {
+			if _, isAlloc := b.(*ssa.Alloc); isAlloc {
+				ec.cells[fv.Name()] = ft.locOfRef(v.T.S, pt.Elem())
+				delete(ec.env, fv.Name())
+				continue
+			}
+		}
+		ec.env[fv.Name()] = v.T
+	}
+	ec.lets = c.Lets
+	for i, r := range c.Requires {
+		var t Term
+		failed := ""
+		func() {
+			defer func() {
+				if rr := recover(); rr != nil {
+					if ue, ok := rr.(unsupportedErr); ok {
+						failed = string(ue)
+						return
+					}
+					panic(rr)
+				}
+			}()
+			t = ec.evalBool(substEntryNames(r.E))
+		}()
+		if failed != "" {
+			ft.notes = append(ft.notes, fmt.Sprintf("precondition %d of %s not checked at the go statement (%s)", i+1, fn.String(), failed))
+			continue
+		}
+		o := ft.obligation("requires", fmt.Sprintf("go%d.%s.requires%d", ft.nCalls, shortName(fn.String()), i+1), r.Src, t.S)
+		o.Where = posStr(ft.p.SSA.Fset, x.Pos())
+	}
+}
+
+// substEntryNames rewrites identifiers name0 to name (the value when the closure starts is the
+// value at the go statement).
+func substEntryNames(e Expr) Expr {
+	switch x := e.(type) {
+	case *EIdent:
+		if strings.HasSuffix(x.Name, "0") && len(x.Name) > 1 {
+			return &EIdent{Name: strings.TrimSuffix(x.Name, "0")}
+		}
+		return x
+	case *EUnary:
+		return &EUnary{x.Op, substEntryNames(x.X)}
+	case *EBinary:
+		return &EBinary{x.Op, substEntryNames(x.L), substEntryNames(x.R)}
+	case *EQuant:
+		return &EQuant{Forall: x.Forall, Vars: x.Vars, Body: substEntryNames(x.Body), Triggers: x.Triggers}
+	case *ECond:
+		return &ECond{substEntryNames(x.C), substEntryNames(x.T), substEntryNames(x.F)}
+	case *EOld:
+		return substEntryNames(x.X) // old state of the closure = state at the go statement
+	case *EField:
+		return &EField{substEntryNames(x.X), x.Name}
+	case *EIndex:
+		return &EIndex{substEntryNames(x.X), substEntryNames(x.I)}
+	case *ECall:
+		n := &ECall{Fn: x.Fn}
+		for _, a := range x.Args {
+			n.Args = append(n.Args, substEntryNames(a))
+		}
+		return n
+	}
+	return e
 }
